@@ -257,6 +257,7 @@ func c09(x *mon.Ctx) {
 	x.Require("trailing", 64, 0, 64)
 	x.Require("pattern", 15, 0, 15)
 	x.Require("enveloped", 0, 40, 40)
+	x.Require("zero-padded", 100, 0, 100)
 	x.Require("inner-type-and-size", 10, 1500, 1900)
 	x.Require("pattern-16MiB", 8, 0, 8)
 
